@@ -69,6 +69,13 @@ class Scratch:
         dst_dir = os.path.join(self.root, "harness")
         os.makedirs(dst_dir, exist_ok=True)
         dst = os.path.join(dst_dir, harness_rel.replace("/", "__"))
+        # shared include files (verification doubles) live next to the harness files
+        inc = os.path.join(VERIF, "contracts", "kani", "include")
+        for f in sorted(os.listdir(inc)) if os.path.isdir(inc) else []:
+            t = os.path.join(dst_dir, f)
+            new_inc = open(os.path.join(inc, f)).read()
+            if not os.path.exists(t) or open(t).read() != new_inc:
+                open(t, "w").write(new_inc)
         # only rewrite if changed, to keep cargo's fingerprints stable on a reused scratch
         new = open(src).read()
         if not os.path.exists(dst) or open(dst).read() != new:
@@ -179,6 +186,8 @@ def playback_values(scr, unit, h):
     except subprocess.TimeoutExpired:
         return None
     tests = re.findall(r"```\n(.*?)```", p.stdout, re.S)
+    # Kani also prints a witness test for every satisfied cover!(); keep counterexamples only
+    tests = [t for t in tests if "Check for `cover`" not in t]
     return tests or None
 
 
@@ -204,7 +213,10 @@ def run_playback(scr, unit, h, tests):
                 p = subprocess.run(cmd, cwd=scr.ws, env=ENV, stdout=subprocess.PIPE, stderr=subprocess.STDOUT,
                                    text=True, timeout=900)
                 out = p.stdout
-                if re.search(r"test result: FAILED", out) or "panicked at" in out:
+                pan = re.findall(r"panicked at ([^\n]*)", out)
+                if pan and all("concrete_playback.rs" in x for x in pan):
+                    results[n] = ("not-reproduced (playback ran out of recorded values)", out[-1500:])
+                elif re.search(r"test result: FAILED", out) or pan:
                     results[n] = ("reproduced", out[-3000:])
                 elif re.search(r"test result: ok\. 1 passed", out):
                     results[n] = ("not-reproduced", out[-1500:])
